@@ -252,3 +252,128 @@ def vec_pre(k, pred, extra=()):
         xs = [kw[f"x{i}"] for i in range(k)]
         return pred(xs, **{n: kw[n] for n in enames})
     return pre
+
+
+def refparse(spec, bs, xs, p=0, i=0):
+    """parse the byte list `bs` from position p by the REFERENCE layout of `spec` and compare
+    with the leaf values xs[i:]; linear arithmetic only.  -> (ok, next p, next i)"""
+    k = spec[0]
+    if k == "int":
+        n, signed = int_info(spec[1])
+        if p + n > len(bs):
+            return False, p, i + 1
+        return R.from_le(bs[p:p + n], signed) == xs[i], p + n, i + 1
+    if k == "bool":
+        if p + 1 > len(bs):
+            return False, p, i + 1
+        return bs[p] == 255 * xs[i], p + 1, i + 1
+    if k == "real":
+        n = spec[1]
+        if p + n > len(bs):
+            return False, p, i + 1
+        return R.from_le(bs[p:p + n]) == xs[i], p + n, i + 1
+    if k == "str":
+        pw = {dt.SHORT_STRING: 1, dt.STRING: 2, dt.STRING2: 2, dt.LOGIX_STRING: 4}[spec[1]]
+        cw, n = spec[3], spec[2]
+        if p + pw + cw * n > len(bs):
+            return False, p, i + n
+        ok = R.from_le(bs[p:p + pw]) == n
+        q = p + pw
+        for j in range(n):
+            ok = ok and R.from_le(bs[q:q + cw]) == xs[i + j]
+            q += cw
+        return ok, q, i + n
+    if k == "bytes":
+        n = spec[1]
+        if p + n > len(bs):
+            return False, p, i + n
+        ok = True
+        for j in range(n):
+            ok = ok and bs[p + j] == xs[i + j]
+        return ok, p + n, i + n
+    if k == "struct":
+        ok = True
+        for _, s in spec[1]:
+            o, p, i = refparse(s, bs, xs, p, i)
+            ok = ok and o
+        return ok, p, i
+    if k == "array":
+        ok = True
+        for _ in range(spec[2]):
+            o, p, i = refparse(spec[1], bs, xs, p, i)
+            ok = ok and o
+        return ok, p, i
+    raise ValueError(spec)
+
+
+def wire_len(spec):
+    k = spec[0]
+    if k == "int":
+        return int_info(spec[1])[0]
+    if k == "bool":
+        return 1
+    if k == "real":
+        return spec[1]
+    if k == "str":
+        pw = {dt.SHORT_STRING: 1, dt.STRING: 2, dt.STRING2: 2, dt.LOGIX_STRING: 4}[spec[1]]
+        return pw + spec[2] * spec[3]
+    if k == "bytes":
+        return spec[1]
+    if k == "struct":
+        return sum(wire_len(s) for _, s in spec[1])
+    if k == "array":
+        return spec[2] * wire_len(spec[1])
+
+
+def refvalues(spec, bs, p=0):
+    """REFERENCE decode: leaf values (list of ints) of `spec` read from byte list bs at p -> (values, next p).
+    Only for specs without strings (fixed width)."""
+    k = spec[0]
+    if k == "int":
+        n, signed = int_info(spec[1])
+        return [R.from_le(bs[p:p + n], signed)], p + n
+    if k == "bool":
+        return [0 if bs[p] == 0 else 1], p + 1
+    if k == "real":
+        return [R.from_le(bs[p:p + spec[1]])], p + spec[1]
+    if k == "bytes":
+        return list(bs[p:p + spec[1]]), p + spec[1]
+    if k == "struct":
+        out = []
+        for _, s in spec[1]:
+            v, p = refvalues(s, bs, p)
+            out += v
+        return out, p
+    if k == "array":
+        out = []
+        for _ in range(spec[2]):
+            v, p = refvalues(spec[1], bs, p)
+            out += v
+        return out, p
+    raise ValueError(spec)
+
+
+def leaf_starts(spec, p=0, acc=None):
+    """byte offsets (reference layout) at which a value starts: the only places where a decoder may
+    report an empty buffer instead of a malformed one -> (set, end offset)"""
+    if acc is None:
+        acc = set()
+    k = spec[0]
+    if k in ("int", "bool", "real", "bytes"):
+        acc.add(p)
+        return acc, p + wire_len(spec)
+    if k == "str":
+        pw = {dt.SHORT_STRING: 1, dt.STRING: 2, dt.STRING2: 2, dt.LOGIX_STRING: 4}[spec[1]]
+        acc.add(p)
+        if spec[2]:
+            acc.add(p + pw)
+        return acc, p + wire_len(spec)
+    if k == "struct":
+        for _, s in spec[1]:
+            _, p = leaf_starts(s, p, acc)
+        return acc, p
+    if k == "array":
+        for _ in range(spec[2]):
+            _, p = leaf_starts(spec[1], p, acc)
+        return acc, p
+    raise ValueError(spec)
